@@ -180,4 +180,15 @@ theorem state_decode_code_ok (p : Bytes) (h16 : 16 ≤ p.length) :
 example : (parseState [0xc0,1,0x45,0x66,0,0,0,0x30,0,0x10,4,0x5c,0xff,0x20,0x70,0,0,0,0,0,0,0,0]).toBool = true := by
   decide +kernel
 
+/-- **C11 about the translated `StateResponse._parse` AND `AirConditioner._update_state`**: for every payload the parser
+    accepts, the attributes the translated `_update_state` assigns from the translated parser's result are those of the model's
+    `updateFromState` on the decoded status (whose fields `state_decode` characterises against the vendor layout) - enum members as
+    their int values, temperatures in hundredths, for both values of `supports_custom_fan_speed`. -/
+theorem refresh_assigns_code (p : Bytes) (st : StateResp) (hp : parseState p = .ok st) (sup : Bool) :
+    ∃ a, Generated.Codec.parseState p = .ok a ∧
+      CodecEq.updateOfAttrs sup a = Generated.Codec.UpdAttrs.ofDev (({ supCustomFan := sup } : Dev).updateFromState st) := by
+  refine ⟨Generated.Codec.StateAttrs.ofModel st, ?_, ?_⟩
+  · rw [CodecEq.parseState_eq, hp]; rfl
+  · rw [CodecEq.updateOfAttrs_ofModel]; rfl
+
 end Msmart.Props.C11
